@@ -305,3 +305,8 @@ PLANS["C08"].proofs += _COERCE[:1]
 _RED = [("contracts.ufunc", n) for n in _U.REDUCTIONS]
 for _pid in ("C04", "C06", "C18", "C16"):
     PLANS[_pid].proofs += _RED
+
+# np.power / ** with a bare real exponent: value law, dimension (C04), refusal on offset scales (C08)
+_POW = [("contracts.ufunc", n) for n in _U.POWERS]
+for _pid in ("C04", "C08", "C16", "C18"):
+    PLANS[_pid].proofs += _POW
